@@ -232,65 +232,8 @@ def _llvm_rules(ck):
     LL = "miasm/jitter/llvmconvert.py"
     m = ck.repo.mod(LL)
     fn = m.func("LLVMFunction.add_ir")
-    consts = tok_consts(ck.repo)
-    # every `if op == X: callback = builder.M` / `elif` pair inside add_ir
-    pairs = {}
-    for n in ast.walk(fn):
-        if isinstance(n, ast.If) and isinstance(n.test, ast.Compare) and norm(n.test.left) == "op" and isinstance(n.test.ops[0], ast.Eq):
-            r = n.test.comparators[0]
-            key = r.value if isinstance(r, ast.Constant) else consts.get(norm(r).split(".")[-1])
-            cb = opname = None
-            for s_ in n.body:
-                if isinstance(s_, ast.Assign) and norm(s_.targets[0]) == "callback" and dotted(s_.value) and dotted(s_.value).startswith("builder."):
-                    cb = dotted(s_.value)[8:]
-                if isinstance(s_, ast.Assign) and norm(s_.targets[0]) == "opname" and isinstance(s_.value, ast.Constant):
-                    opname = s_.value.value
-            if key is not None and cb is not None:
-                pairs.setdefault(key, []).append((cb, opname, n))
-    # comparisons reach the first matching branch: the early unsigned table wins for == <u <=u
-    early = None
-    for n in ast.walk(fn):
-        if isinstance(n, ast.Assign) and norm(n.targets[0]) == "unsigned_cmps" and isinstance(n.value, ast.Dict):
-            early = dict((k.value, v.value) for k, v in zip(n.value.keys, n.value.values))
-    ck.need(early is not None and pairs, "LLVMFunction.add_ir: operator branches not found")
-    CMPREF = {"==": ("icmp_unsigned", "=="), "<u": ("icmp_unsigned", "<"), "<=u": ("icmp_unsigned", "<="),
-              "<s": ("icmp_signed", "<"), "<=s": ("icmp_signed", "<=")}
-    for op, (cb, tok) in sorted(CMPREF.items()):
-        if op in early:
-            got = ("icmp_unsigned", early[op])
-            where = "the early unsigned table"
-            node = fn
-        else:
-            cand = [(c, o, n) for (c, o, n) in pairs.get(op, [])]
-            got = (cand[0][0], cand[0][1]) if cand else (None, None)
-            where = "its branch"
-            node = cand[0][2] if cand else fn
-        ck.ob("R6", "llvm:%s" % op, got == (cb, tok), m.where(node),
-              "comparison %r is translated by %s as %s(%r); the reference is %s(%r)" % (op, where, got[0], got[1], cb, tok))
-    for op in ("udiv", "umod", "sdiv", "smod", "*", "+", "&", "^", "|", "%", "/", ">>", "<<", "a>>"):
-        cand = pairs.get(op, [])
-        ref = OT0[op]
-        got = LLVM.get(cand[0][0], "?") if cand else None
-        # LLVM shifts are poison for counts >= width: the saturation select is checked separately
-        norm_got = {"SHL_POISON": "SHL_SAT", "LSHR_POISON": "LSHR_SAT", "ASHR_POISON": "ASHR_SAT"}.get(got, got)
-        ck.ob("R6", "llvm:%s" % op, norm_got == ref, m.where(cand[0][2]) if cand else LL,
-              "operator %r is translated with builder.%s = %s; miasm's meaning is %s" % (op, cand[0][0] if cand else None, got, ref))
-    txt = norm(ast.Module(body=fn.body, type_ignores=[])).replace(" ", "")
-    ok = "cond_ok=self.builder.icmp_unsigned('<',count,itype(expr.size))" in txt and "ret=self.builder.select(cond_ok,callback(value,count),zero)" in txt
-    ck.ob("R6", "llvm:shift-saturation", ok, m.where(fn), "shifts must select 0 (or the sign fill) when the count is not < width: LLVM shifts by >= width are poison")
-    ok = "cond_neg=self.builder.icmp_signed('<',value,zero)" in txt and "zero=self.builder.select(cond_neg,itype(-1),zero)" in txt
-    ck.ob("R6", "llvm:ashr-sign-fill", ok, m.where(fn), "a>> by >= width must give -1 for negative values")
-    ok = "shift=builder.urem(count,expr_size)" in txt and "shift_inv=builder.urem(builder.sub(expr_size,shift),expr_size)" in txt and \
-        "ifop=='<<<':\npart_a=builder.shl(value,shift)\npart_b=builder.lshr(value,shift_inv)\nelse:\npart_a=builder.lshr(value,shift)\npart_b=builder.shl(value,shift_inv)".replace("\n", "\n") in txt.replace("    ", "")
-    ck.ob("R6", "llvm:rotations", ok, m.where(fn), "rotations must reduce the count modulo the width and OR (value shl s) with (value lshr (width - s)), mirrored for >>>")
-    ok = "zero=LLVMType.IntType(expr.size)(0)" in txt and "ret=builder.sub(zero,self.add_ir(expr.args[0]))" in txt
-    ck.ob("R6", "llvm:neg", ok, m.where(fn), "unary minus must be 0 - x")
-    ok = "truncated=builder.trunc(arg,LLVMType.IntType(8))" in txt and "self.mod.get_global('llvm.ctpop.i8')" in txt and \
-        "ret=builder.not_(builder.trunc(bitcount,LLVMType.IntType(1)))" in txt
-    ck.ob("R6", "llvm:parity", ok, m.where(fn), "parity must be not(popcount(low byte) & 1)")
-    # operand order of the division family
-    ok = "ret=callback(arg_a,arg_b)" in txt and "arg_a=self.add_ir(expr.args[0])" in txt and "arg_b=self.add_ir(expr.args[1])" in txt
-    ck.ob("R6", "llvm:division-operands", ok, m.where(fn), "division must be callback(dividend, divisor)")
+    from rules._composites import llvm_operator_rules
+    llvm_operator_rules(ck, "R6", m.where(fn))
 
     # ---------------------------------------------------------------- R7 (a) key tested in D1 indexes D2
     n_a = n_b = 0
